@@ -49,11 +49,23 @@ mod native {
     }
 
     /// Simple string-based cache key compatible with cascette-cache
-    #[derive(Debug, Clone, PartialEq, Eq)]
+    #[derive(Debug, Clone)]
     pub struct ProtocolCacheKey {
         key: String,
         cached_key: OnceLock<String>,
     }
+
+    // Equality must agree with `Hash` and ignore the memoised `cached_key`: a derived
+    // `PartialEq` makes a key whose `as_cache_key()` has been called differ from a fresh key
+    // for the same string, so the disk cache never finds its own index entries (and their
+    // expiry) again and serves every file forever through its on-disk fallback.
+    impl PartialEq for ProtocolCacheKey {
+        fn eq(&self, other: &Self) -> bool {
+            self.key == other.key
+        }
+    }
+
+    impl Eq for ProtocolCacheKey {}
 
     impl std::hash::Hash for ProtocolCacheKey {
         fn hash<H: std::hash::Hasher>(&self, state: &mut H) {
